@@ -67,6 +67,7 @@ type Workload struct {
 	AttrNames  []string
 	Dynamics   []string // dynamic signs the tree's own help text lists
 	Edge       bool     // also draw values at the edges of integer ranges (C09, C08)
+	NewFlags   map[string][]NewFlag // per command: options the pinned commit does not have
 }
 
 func (w *Workload) Load(env *Env) error {
@@ -127,7 +128,56 @@ func (w *Workload) Load(env *Env) error {
 	if len(w.ChordNames) == 0 || len(w.AttrNames) == 0 {
 		return Infraf("empty dictionaries from the tree")
 	}
+	// flags this tree offers beyond the ones of the pinned commit (read from
+	// its own help texts): a new option is part of "the same arguments"
+	w.NewFlags = map[string][]NewFlag{}
+	flagLine := regexp.MustCompile(`(?m)^\s+(?:-(\w), )?--([\w-]+)(?: (\w+))?\s{2,}`)
+	for _, path := range [][]string{{"text", "parse"}, {"text", "conv", "degree"}, {"text", "conv", "syllable"}, {"write"}, {"write", "event"}, {"write", "parse"}, {"write", "conv"},
+		{"info", "attr", "list"}, {"info", "attr", "describe"}, {"info", "chord", "list"}, {"info", "chord", "describe"}, {"info", "key", "list"}, {"info", "key", "describe"}, {"info", "key", "conv"}, {"gen", "attr"}} {
+		r, err := env.Exec(&Step{Step: simrt.Step{Argv: append(append([]string{}, path...), "--help")}})
+		if err != nil {
+			return err
+		}
+		for _, m := range flagLine.FindAllSubmatch(append(r.Stdout, r.Stderr...), -1) {
+			name := string(m[2])
+			if pinnedFlags[name] {
+				continue
+			}
+			w.NewFlags[strings.Join(path, " ")] = append(w.NewFlags[strings.Join(path, " ")], NewFlag{Name: "--" + name, Type: string(m[3])})
+		}
+	}
 	return nil
+}
+
+// NewFlag is an option of the tree under test that the pinned commit does not have.
+type NewFlag struct {
+	Name string
+	Type string // "" for a switch; string, int, uint, ... as the help text says
+}
+
+// pinnedFlags: the long option names of the pinned commit.
+var pinnedFlags = map[string]bool{"help": true, "attr": true, "chord": true, "debug": true, "output": true, "bpm": true, "instrument": true, "key": true, "meter": true,
+	"program": true, "track": true, "velocity": true, "command": true, "target": true, "root": true, "precedeSharp": true, "maxDegree": true, "port": true}
+
+// WithNewFlag adds one of the tree's new options to a command (for every
+// execution of a family alike).
+func (w *Workload) WithNewFlag(r *model.Rand, b *Base) string {
+	fl := w.NewFlags[CommandOf(b.Argv)]
+	if len(fl) == 0 {
+		return ""
+	}
+	f := model.Pick(r, fl)
+	switch f.Type {
+	case "":
+		b.Argv = append(b.Argv, f.Name+"=true")
+	case "int", "uint", "uint8", "uint16", "uint32", "int64", "uint64", "float64":
+		b.Argv = append(b.Argv, f.Name+"="+model.Pick(r, []string{"1", "2", "3", "16"}))
+	case "duration":
+		b.Argv = append(b.Argv, f.Name+"="+model.Pick(r, []string{"1s", "1h"}))
+	default:
+		b.Argv = append(b.Argv, f.Name+"="+model.Pick(r, []string{"x", "1", "a,b"}))
+	}
+	return f.Name
 }
 
 // Base is a command with its input, before any variation.
